@@ -33,6 +33,9 @@ type ctx struct {
 	seen   map[string]bool
 	nontrivial int
 	violations []map[string]string
+	// finish flushes the case file and writes the stats file; a group that must give up early
+	// (a real function that does not return) calls it and exits: what was found so far is kept
+	finish func()
 }
 
 var groups = map[string]func(*ctx){}
@@ -200,11 +203,14 @@ func main() {
 	if devnull != nil {
 		os.Stdout = devnull
 	}
+	c.finish = func() {
+		c.w.Flush()
+		f.Close()
+		st := map[string]any{"evaluations": c.n, "distinct": len(c.seen), "distinct_nontrivial": c.nontrivial,
+			"distribution": c.stats, "samples": c.sample, "violations": c.violations}
+		js, _ := json.MarshalIndent(st, "", " ")
+		os.WriteFile(os.Args[5], js, 0644)
+	}
 	g(c)
-	c.w.Flush()
-	f.Close()
-	st := map[string]any{"evaluations": c.n, "distinct": len(c.seen), "distinct_nontrivial": c.nontrivial,
-		"distribution": c.stats, "samples": c.sample, "violations": c.violations}
-	js, _ := json.MarshalIndent(st, "", " ")
-	os.WriteFile(os.Args[5], js, 0644)
+	c.finish()
 }
